@@ -382,7 +382,7 @@ type result struct {
 	Reused   bool   `json:"reused"`
 	Debug    string `json:"debug,omitempty"` // RunContext.Debug names this group
 	Alias    string `json:"alias,omitempty"` // product / deep sweeps: the GODEBUG=gotypesalias mode of the child process
-	File     string `json:"file"` // disk: the analysed bytes are on disk; mem: nothing at the file's path; stale: a shorter, older version
+	File     string `json:"file"`            // disk: the analysed bytes are on disk; mem: nothing at the file's path; stale: a shorter, older version
 	LoadErr  string `json:"load_err,omitempty"`
 	Panic    string `json:"panic,omitempty"`
 	Bad      []bad  `json:"bad,omitempty"`
@@ -789,6 +789,8 @@ func main() {
 			enc.Encode(result{K: "render", Inst: "true", Shape: "all", Trunc: tl, GoVer: gv, Reused: c.reused, File: c.file, LoadErr: lerr, Panic: pmsg, Bad: bads, Reports: n})
 		}
 	}
+	// the same sweep over captures whose text is made of multi-byte characters (unicode.go)
+	uniSweep(*tmp, func(r result) { enc.Encode(r) })
 	pwg.Wait()
 	enc.Encode(map[string]interface{}{"k": "meta", "rules": len(rules), "contexts": len(ctxs), "shapes": len(shapes)})
 }
